@@ -616,6 +616,8 @@ pub trait Backend: Send + Sync {
 
     /// parse `s` as the given artifact kind and re-display it
     fn reparse(&self, a: Artifact, s: &str) -> Out<String>;
+    /// the unvalidated `KeyText` layer: parse, re-display, raw bytes round trip, id, comparisons
+    fn keytext_ops(&self, kind: Kind, s: &str) -> Out<String>;
     /// parse two key ids: (a == b, a.cmp(b), hash(a) == hash(b), a.as_bytes(), b.as_bytes(), set semantics ok)
     fn id_relations(&self, a: Artifact, s1: &str, s2: &str) -> Out<(bool, i8, bool, [u8; 33], [u8; 33], bool)>;
     /// serde: (serde_json::to_string of the parsed value, from_str(that) re-displayed)
@@ -1209,6 +1211,23 @@ impl<V: Full> Backend for B<V> {
                 Artifact::Seal => SealedKey::<V>::from_str(s)?.to_string(),
             })
         })
+    }
+
+    fn keytext_ops(&self, kind: Kind, s: &str) -> Out<String> {
+        guard(|| by_kind!(kind, K => {
+            let kt = KeyText::<V, K>::from_str(s)?;
+            let shown = kt.to_string();
+            let again = KeyText::<V, K>::from_raw_bytes(kt.as_raw_bytes());
+            if again != kt || again.cmp(&kt) != std::cmp::Ordering::Equal {
+                return harness_err("KeyText raw round trip differs");
+            }
+            // `KeyId: From<&KeyText>` is public API on the unvalidated text
+            let id: KeyId<V, K> = KeyId::from(&kt);
+            let mut set = std::collections::BTreeSet::new();
+            set.insert(kt);
+            set.insert(again);
+            Ok(format!("{shown} {id} {}", set.len()))
+        }))
     }
 
     fn id_relations(&self, a: Artifact, s1: &str, s2: &str) -> Out<(bool, i8, bool, [u8; 33], [u8; 33], bool)> {
